@@ -169,3 +169,22 @@ Definition rl2_col_range (x : rl2) (sl : pyslice) : res rl2 :=
     let rs := flat_map (fun o => match o with Some p => [p] | None => [] end) rows in
     Ok {| r_idx := map fst rs ; r_val := map snd rs ; r_len := r_len x |}
   else Refused.
+
+(* RunLength2dArray.from_intervals L755-782: two zero-filled ragged arrays of shape starts_after_zero + 1 + ends_before_end, then
+   indices[k, saz] = start, values[k, saz] = value, indices[ends_before_end, -1] = end; row by row *)
+Definition interval_row (n value : Z) (se : Z * Z) : list Z * list Z :=
+  let '(s, e) := se in
+  let saz := s >? 0 in let ebe := e <? n in
+  let len := (if saz then 1 else 0) + 1 + (if ebe then 1 else 0) in
+  let zeros := repeat 0 (Z.to_nat len) in
+  let pos := if saz then 1 else 0 in
+  let idx := zset zeros pos s in
+  let vals := zset zeros pos value in
+  let idx := if ebe then zset idx (len - 1) e else idx in
+  (idx, vals).
+Definition from_intervals (starts ends : list Z) (n value : Z) : rl2 :=
+  let rows := map (interval_row n value) (combine starts ends) in
+  {| r_idx := map fst rows ; r_val := map snd rows ; r_len := Some n |}.
+(* the indicator row of [s, e) scaled by the value *)
+Definition indicator_row (n value s e : Z) : list Z :=
+  repeat 0 (Z.to_nat s) ++ repeat value (Z.to_nat (e - s)) ++ repeat 0 (Z.to_nat (n - e)).
